@@ -1,4 +1,5 @@
 HOOK_COMMITS = []
+FIX_COMMITS = ['6787ad3', '7dba062', 'da3750e']
 NOTES = 'See DESIGN.md. Exit codes of ./vf check: 0 held, 1 violation (VIOLATION line), 2 undecided, 3 checker fault.'
 NOT_APPLICABLE = {}
 CHECKS = {
@@ -6,4 +7,16 @@ CHECKS = {
    text='For all 57 logics x 8 operators: the real TruthFunction method body is symbolically executed (callee calls replaced by the callee\'s spec table) and z3 proves body == independent spec table for every value tuple; also through TruthFunction.__call__; every table is in addition enumerated on the real code. Finite domain, complete. Evidence level is "other" while the FDE-family known finding remains refuted.',
    note='Trusted: oracle spec/semantics.py (literature); model of Mval dunders; metaclass code executed at import; builtin min/max/map axioms. See evidence trusted_base.',
    technique='contract-based deductive verification: ast->VC symbolic execution of the real method bodies, z3 over a finite value sort, plus complete enumeration on the real code'),
+ 'C04': dict(level='proof',
+   text='Every operator, quantifier and modal rule body of all 57 logics (2 300+ rule instances) is interpreted from the real source over a free sentence algebra; z3 proves forward and backward exactness against the independent spec for all component values and, for quantifier/modal rules, for every set of instance values (all domain sizes). Ground obligations: induced attributes and filters, world discipline, branching, one rule per shape; frame rules are driven through the real rules on all 512 relations over 3 worlds. Evidence level is "other" while known findings (B3E and FDE biconditional rules, serial heuristic) remain refuted.',
+   note='Trusted: oracle; sentence constructors as free datatype (C15); Node ctor contract; helper abstractions; metaclass code executed at import. See evidence trusted_base.',
+   technique='contract-based deductive verification: ast->schema symbolic execution of the real rule bodies, z3 finite-sort validity queries against spec tables; enumeration for frame rules'),
+ 'C05': dict(level='proof',
+   text='For every logic the closure hooks are interpreted from source on every ordered pair of literal nodes (same world and across worlds); detected pairs must be unsatisfiable per spec, detection symmetric in arrival order, every subset of literals on which no rule fires satisfiable, and BaseModel._read_node (interpreted from source) must read one value that satisfies the subset. Complete finite case analysis.',
+   note='Trusted: Branch.find contract, truth_function per spec (C07), oracle. Identity/existence literals run on the real rules (enumerated).',
+   technique='contract-based deductive verification: symbolic execution of closure hooks and the model builder over literal sets, discharged against spec (finite, complete)'),
+ 'C06': dict(level='proof',
+   text='Branch.__init__/append/copy/new_constant/new_world are symbolically executed over z3 sets and integers; the freshness invariant and whole-view postconditions are proved inductive for every pre-state and node (no history bound). CoordsItem.next is proved to be the successor in the constant order. Witness use is checked on the interpreted schema of every witness rule; a frame scan shows no outside writer of the private fields. Bounded real-history search cross-checks and replays.',
+   note='Trusted: emit/listeners do not write the private fields (scanned), qset/Index copy contracts, Sentence.constants (C15), builtin set/max axioms.',
+   technique='contract-based deductive verification: inductive invariant VCs from the real source, discharged by z3 (sets + linear integer arithmetic + quantifiers)'),
 }
